@@ -2,7 +2,7 @@
 # Runs, for every seeded change, the quick check of its property against the patched /repo; prints a table.
 # (Serial: each run patches /repo.)  usage: seedmatrix.sh [extra-id-map]
 cd /verif
-for d in seeded/*/[12]; do
+for d in ${SEEDGLOB:-seeded/*/[12]}; do
   id=$(basename $(dirname $d)); n=$(basename $d)
   cd /repo; if git apply $OLDPWD/$d/patch.diff 2>/dev/null || git apply -3 $OLDPWD/$d/patch.diff >/dev/null 2>&1; then ok=1; else ok=0; git reset -q --hard HEAD; fi; cd /verif
   if [ $ok = 0 ]; then echo "$id/$n PATCH-CONFLICT"; continue; fi
